@@ -10,6 +10,15 @@ namespace fs = std::filesystem;
 static std::string g_main, g_root;
 
 // ------------------------------------------------------------------------------------------------ seed files
+// the same two-octahedra file with the triangle list of the first cell edited CONSISTENTLY (all counts follow): drop = index of a triangle to leave out (-1: none), dup = index of one to list twice, flip = index of one to wind the other way
+static std::string seed_vtk_tri_edited(int drop, int dup, int flip) {
+    std::ostringstream o; o << "# vtk DataFile Version 4.2\nvtk output\nASCII\nDATASET UNSTRUCTURED_GRID\nPOINTS 12 float\n";
+    double P[6][3] = {{1, 0, 0}, {-1, 0, 0}, {0, 1, 0}, {0, -1, 0}, {0, 0, 1}, {0, 0, -1}}; for (int c = 0; c < 2; c++) { for (int i = 0; i < 6; i++) o << P[i][0] + 3.5 * c << " " << P[i][1] << " " << P[i][2] << " "; o << "\n"; }
+    int T[8][3] = {{0, 2, 4}, {2, 1, 4}, {1, 3, 4}, {3, 0, 4}, {2, 0, 5}, {1, 2, 5}, {3, 1, 5}, {0, 3, 5}};
+    std::vector<std::array<int, 3>> first; for (int i = 0; i < 8; i++) { if (i == drop) continue; std::array<int, 3> t = {T[i][0], T[i][1], T[i][2]}; if (i == flip) std::swap(t[1], t[2]); first.push_back(t); if (i == dup) first.push_back(t); }
+    const int n1 = 1 + 4 * (int)first.size();
+    o << "\nCELLS 2 " << (n1 + 1) + 34 << "\n" << n1 << " " << first.size() << " "; for (auto& t : first) o << "3 " << t[0] << " " << t[1] << " " << t[2] << " "; o << "\n33 8 "; for (auto& t : T) o << "3 " << t[0] + 6 << " " << t[1] + 6 << " " << t[2] + 6 << " "; o << "\n";
+    o << "\nCELL_TYPES 2\n42\n42\n\nCELL_DATA 2\nFIELD FieldData 2\ncell_id 1 2 int\n0 1\ncell_type_id 1 2 int\n0 0\n"; return o.str(); }
 static std::string seed_vtk_tri() {   // two octahedra, triangulated; with the cell data arrays the reader needs
     std::ostringstream o; o << "# vtk DataFile Version 4.2\nvtk output\nASCII\nDATASET UNSTRUCTURED_GRID\nPOINTS 12 float\n";
     double P[6][3] = {{1, 0, 0}, {-1, 0, 0}, {0, 1, 0}, {0, -1, 0}, {0, 0, 1}, {0, 0, -1}}; for (int c = 0; c < 2; c++) { for (int i = 0; i < 6; i++) o << P[i][0] + 3.5 * c << " " << P[i][1] << " " << P[i][2] << " "; o << "\n"; }
@@ -27,7 +36,7 @@ static std::string seed_xml(bool triangulate, double lmin) {
     o << "</face_types>\n</cell_type>\n</cell_types>\n"; return o.str(); }
 
 // ------------------------------------------------------------------------------------------------ fault generation
-struct Case { int seedset; std::string file; std::string kind; std::string where; std::string vtk, xml; bool valid_geometry_edit = false; };
+struct Case { int seedset; std::string file; std::string kind; std::string where; std::string vtk, xml; bool valid_geometry_edit = false; bool must_be_diagnosed = false; /* a well-formed file whose face list does not describe a closed surface, offered with the initial triangulation switched off */ };
 static const char* MENU[] = {"-1", "0", "99", "4294967295", "99999999999999999999", "abc", "1e999", "nan", "3.5"};
 
 struct TokSpan { size_t b, e; };
@@ -47,7 +56,7 @@ static void gen_vtk_faults(int seedset, const std::string& vtk, const std::strin
         mut("token-deleted", "", true); mut("token-duplicated", vtk.substr(t.b, t.e - t.b) + " " + vtk.substr(t.b, t.e - t.b), false);
         for (const char* m : MENU) mut(std::string("token-replaced-by-") + m, m, false);
         // index-like tokens (everything but point coordinates): the first values that do not exist / that wrap the integer types the readers use
-        if (!coord_token) { for (const std::string& m : {std::to_string(npoints), std::to_string(npoints + 1), std::string("32768"), std::string("65535"), std::string("2147483647"), std::string("2147483648")}) mut("token-replaced-by-" + m + (m == std::to_string(npoints) ? "(=number of points)" : m == std::to_string(npoints + 1) ? "(=number of points+1)" : ""), m, false); } }
+        if (!coord_token) { for (const std::string& m : {std::to_string(npoints), std::to_string(npoints + 1), std::string("32768"), std::string("65535"), std::string("715827883"), std::string("1431655765"), std::string("1431655766"), std::string("2147483647"), std::string("2147483648")}) mut("token-replaced-by-" + m + (m == std::to_string(npoints) ? "(=number of points)" : m == std::to_string(npoints + 1) ? "(=number of points+1)" : ""), m, false); } }
     // data lines reduced to a single token followed by blanks (a count that announces nothing)
     { size_t ls0 = 0; int li = 0; while (ls0 < vtk.size()) { size_t le = vtk.find('\n', ls0); if (le == std::string::npos) le = vtk.size(); std::string line = vtk.substr(ls0, le - ls0); bool data = ls0 >= body && !line.empty() && (isdigit((unsigned char)line[0]) || line[0] == '-');
         if (data) for (const char* tok : {"0", "1", "-1", "3"}) { Case c; c.seedset = seedset; c.file = "vtk"; c.where = section_at(vtk, ls0) + "#line" + std::to_string(li); c.xml = xml; c.kind = std::string("line-reduced-to-") + tok; c.vtk = vtk.substr(0, ls0) + tok + "      " + vtk.substr(le); out.push_back(c); }
@@ -127,6 +136,9 @@ static void explore(Result& R) {
     if (th) { // 2 deviations over a reduced alphabet: every pair of (count token of a section header, menu value)
         std::vector<Case> singles; gen_vtk_faults(0, v1, x1, false, singles); std::vector<Case> cnt; for (auto& c : singles) if (c.kind.rfind("token-replaced-by-", 0) == 0 && (c.kind == "token-replaced-by-0" || c.kind == "token-replaced-by-4294967295" || c.kind == "token-replaced-by--1")) cnt.push_back(c);
         for (size_t i = 0; i < cnt.size(); i += 7) { std::vector<Case> second; gen_vtk_faults(0, cnt[i].vtk, x1, false, second); for (size_t j = 0; j < second.size(); j += 13) { Case c = second[j]; c.kind = cnt[i].kind + "+" + c.kind; cases.push_back(c); } } }
+    // well-formed files whose face list does not describe a closed surface (every triangle of the first cell left out / listed twice, counts adjusted), with the initial triangulation off: must be diagnosed
+    for (int i = 0; i < 8; i++) { Case c; c.seedset = 0; c.file = "vtk"; c.where = "triangle#" + std::to_string(i); c.xml = x1; c.must_be_diagnosed = true; c.kind = "triangle-left-out-consistently"; c.vtk = seed_vtk_tri_edited(i, -1, -1); cases.push_back(c); c.kind = "triangle-listed-twice-consistently"; c.vtk = seed_vtk_tri_edited(-1, i, -1); cases.push_back(c); }
+    { Case c; c.seedset = 0; c.file = "vtk"; c.kind = "valid-seed"; c.where = "regenerated"; c.xml = x1; c.vtk = seed_vtk_tri_edited(-1, -1, -1); cases.push_back(c); }   // the generator itself reproduces a valid file
     // arbitrary (short) byte strings: EVERY string up to length 3 (thorough; quick: 2) over an alphabet of the bytes and words the two parsers react to, offered as the whole mesh file
     // and as the whole parameter file (the other file being a valid seed)
     { const std::vector<std::string> AV = {"POINTS", "CELLS", "CELL_TYPES", "3", "-1", "float", " ", "\n", "x", std::string(1, '\0')}, AX = {"<", ">", "/", "numerical_parameters", "a", "=", "\"", " ", "&", "1"};
@@ -141,7 +153,7 @@ static void explore(Result& R) {
     auto finish = [&](const Running& r, int status, bool to) { const Case& c = cases[r.idx]; Outcome o = classify(status, to, r.dir); outcomes[o.cls.substr(0, o.cls.find(':') == std::string::npos ? o.cls.size() : (o.cls.rfind("sanitizer", 0) == 0 ? o.cls.size() : o.cls.find(':')))]++; done++;
         if (o.cls == "reported") msgs[o.detail.substr(0, 70)]++;
         if (c.valid_geometry_edit && (o.cls == "hang" || o.cls == "memory-blow-up")) { o.cls = "startup-completed"; o.detail = "not judged: well-formed file whose geometry (a coordinate replaced by another finite number) makes the triangulation legitimately expensive"; }
-        bool bad = !(o.cls == "completed" || o.cls == "reported" || o.cls == "startup-completed"); if (o.cls == "startup-completed") R.tables["after_startup"][o.detail]++; if (c.kind == "valid-seed" && o.cls != "completed" && o.cls != "startup-completed") { bad = true; o.detail = "a valid seed file did not complete: " + o.cls + " " + o.detail; }
+        bool bad = !(o.cls == "completed" || o.cls == "reported" || o.cls == "startup-completed"); if (c.must_be_diagnosed && o.cls != "reported" && !bad) { bad = true; o.detail = "a face list that does not describe a closed surface was accepted without a diagnostic (" + o.cls + ")"; o.cls = "invalid-face-list-not-diagnosed"; } if (o.cls == "startup-completed") R.tables["after_startup"][o.detail]++; if (c.kind == "valid-seed" && o.cls != "completed" && o.cls != "startup-completed") { bad = true; o.detail = "a valid seed file did not complete: " + o.cls + " " + o.detail; }
         if (bad) R.violation(case_key(c, o), "file " + c.file + ", fault " + c.kind + " at " + c.where + " (seed set " + std::to_string(c.seedset) + "): outcome " + o.cls + " " + o.detail, "vtk=" + esc_nl(c.vtk) + "\nxml=" + esc_nl(c.xml) + "\n");
         if (done % 700 == 1) R.sample("{\"file\":\"" + c.file + "\",\"fault\":\"" + c.kind + "\",\"where\":\"" + c.where + "\",\"outcome\":\"" + o.cls + "\"}");
         std::error_code ec; fs::remove_all(r.dir, ec); };
@@ -155,7 +167,7 @@ static void explore(Result& R) {
         if (!any) usleep(3000); }
     std::error_code ec; fs::remove_all(g_root, ec);
     R["evaluations"] = done; R["states"] = done; R["transitions"] = done; R["distinct_nontrivial"] = (long)msgs.size() + 2; R["traces_validated_against_impl"] = done; R["cases_generated"] = (long)cases.size(); R["unsafe_skipped"] = unsafe; R["distinct_validation_messages_reached"] = (long)msgs.size();
-    R.strings["rule"] = "a case = one valid seed (two-octahedra VTK + XML; quad-cube VTK + XML with initial triangulation) with 0 or 1 deviation from the complete alphabet {every token (of the polygonal seed: every third token in the quick tier) deleted / duplicated / replaced by each of (index-like tokens also: the number of points, that number + 1, 32768, 65535, 2147483647, 2147483648) -1, 0, 99, 4294967295, 99999999999999999999, abc, 1e999, nan, 3.5; every keyword line removed / duplicated / moved to the end; truncation at every 8th (thorough: every) byte; every XML element removed / duplicated / renamed / emptied / self-closed / text replaced by each menu value} (thorough: pairs over a reduced alphabet); each case runs the real main binary (ASan+UBSan) in its own directory; distinct_nontrivial = number of distinct diagnostics reached + the two valid seeds";
+    R.strings["rule"] = "a case = one valid seed (two-octahedra VTK + XML; quad-cube VTK + XML with initial triangulation) with 0 or 1 deviation from the complete alphabet {every token (of the polygonal seed: every third token in the quick tier) deleted / duplicated / replaced by each of (index-like tokens also: the number of points, that number + 1, 32768, 65535, 715827883 and 1431655765/6 (where three times the value wraps 31 / 32 bits), 2147483647, 2147483648) -1, 0, 99, 4294967295, 99999999999999999999, abc, 1e999, nan, 3.5; every keyword line removed / duplicated / moved to the end; truncation at every 8th (thorough: every) byte; every XML element removed / duplicated / renamed / emptied / self-closed / text replaced by each menu value} (thorough: pairs over a reduced alphabet); each case runs the real main binary (ASan+UBSan) in its own directory; distinct_nontrivial = number of distinct diagnostics reached + the two valid seeds";
     R.assumptions = {"acceptable outcomes: exit 0, or exit 1 with the message of a std::exception printed by main, or start-up completed (the solver announced its output folder) whatever the accepted parameters then do to the run; anything else (signal, std::terminate, sanitizer report, > 40 s wall / 20 s CPU, > 1 GiB resident before start-up completes) is a violation", "a point coordinate replaced by another finite number gives a well-formed file with a valid (possibly huge) geometry: time/memory limits are not judged for those cases, crashes and sanitizer reports are", "mutated output-folder values are checked to stay inside the private directory before launch (unsafe_skipped counts the ones skipped)"};
 }
 static int replay(const Replay& rp, Result& R) { Case c; c.vtk = unesc_nl(rp.get("vtk")); c.xml = unesc_nl(rp.get("xml")); if (!output_path_is_safe(c.xml)) { printf("unsafe output path, not run\n"); return 0; } std::string dir = "build/run/C17-replay-" + std::to_string(getpid()); fs::create_directories(dir); dir = fs::absolute(dir).string(); Outcome o = run_one(c, dir); printf("outcome: %s %s\n", o.cls.c_str(), o.detail.c_str());
